@@ -17,7 +17,9 @@ import numpy
 from .. import engine, fpx
 from ..translate import blocks
 
-THEOREMS = ["generated_wf", "ties_next", "next_constant_value", "next_all_precisions", "neighbours", "next_up_generated", "is_power_of_two_all_precisions", "next_up_bit_exact_f32", "refinement_scope", "is_power_of_two_shape_f32", "is_power_of_two_bit_exact_f32"]
+THEOREMS = ["generated_wf", "ties_next", "next_constant_value", "next_all_precisions", "neighbours", "next_up_generated", "is_power_of_two_all_precisions", "next_up_bit_exact_f32", "refinement_scope", "is_power_of_two_shape_f32", "is_power_of_two_bit_exact_f32",
+            "is_power_of_two_shape_f16", "is_power_of_two_bit_exact_f16", "is_power_of_two_shape_f64", "is_power_of_two_bit_exact_f64",
+            "next_up_generated_f16", "next_up_generated_f64", "next_up_bit_exact_f16", "next_up_bit_exact_f64"]
 SEARCHED = ["is_power_of_two exact", "3Sum s+e+t = x+y+z and 1-ULP bound", "4Sum 1 ULP", "mul_add 2 ULP", "dot2 3 ULP",
             "every FMA variant within 1 ULP of RN(x*y+z)"]
 TRUSTED = [
@@ -29,9 +31,9 @@ TRUSTED = [
 LEVEL_TEXT = ("Partial proof. Theorem: next(x) = nextafter(x, +-inf) for EVERY precision p>=2, every emin and any round-to-nearest: for normal x = +-k*2^e, RN(x/c) and "
               "RN(x*c) with c = 1-2^-p are the lattice neighbours (half a step at a power of two), and nothing representable lies strictly in between; lifted to the regenerated "
               "`next` programs (kernel-checked ties to the specification program, constant c checked per format) and, through the refinement theorem, to the BIT PATTERNS "
-              "the regenerated float32 `next` computes (next_up_bit_exact_f32). Theorem: the identity behind is_power_of_two (D = RN(RN(Px) - RN(Qx)) equals x iff x is a power "
-              "of two) for every precision and rounding, and on BIT PATTERNS for the traced float32 program (is_power_of_two_shape_f32: the dtype dispatch folds to D == x; "
-              "is_power_of_two_bit_exact_f32: returns 1 iff the normal x is a power of two whenever P*x, Q*x, their difference are finite); float16/float64 and subnormals by search. "
+              "the regenerated `next` computes in float16/32/64 (next_up_bit_exact_*). Theorem: the identity behind is_power_of_two (D = RN(RN(Px) - RN(Qx)) equals x iff x is a power "
+              "of two) for every precision and rounding, and on BIT PATTERNS for the traced programs in float16/32/64 (is_power_of_two_shape_*: the dtype dispatch folds to D == x; "
+              "is_power_of_two_bit_exact_*: returns 1 iff the normal x is a power of two whenever P*x, Q*x, their difference are finite); subnormals by search. "
               "All regenerated programs are well formed. The 1/2/3-ULP bounds of 3Sum/4Sum/mul_add/dot2/FMA are decided by exact-rational search on the real functions only (not theorems).")
 LEVEL_NOTE = "ULP bounds of 3Sum/4Sum/mul_add/dot2/FMA and the guarded is_power_of_two program: search only (Graillat-Muller proofs not formalised). Known finding: fix_overflow fallback of the FMA variants loses the low product word under cancellation."
 TECHNIQUE = "Lean 4 proof (FP theory over Q, any precision/rounding) tied to regenerated programs + 3-way correspondence + exact-rational ULP search"
